@@ -99,9 +99,32 @@ def _run(case):
             except Exception as e:  # noqa: BLE001
                 self.build = "err:" + type(e).__name__
 
+    class Untracker(Component):
+        """writes tracked = False for some simulants at the start of a step and remembers the index the framework
+        hands to listeners (event.index: untracked simulants included)"""
+
+        def __init__(self):
+            super().__init__()
+            self.nstep, self.event_index = 0, None
+
+        @property
+        def name(self):
+            return "untracker"
+
+        def setup(self, b):
+            self.view = b.population.get_view(["tracked"])
+
+        def on_time_step(self, e):
+            self.nstep += 1
+            for at, sims in case.get("untrack", []):
+                if at == self.nstep and sims:
+                    self.view.update(pd.Series(False, index=pd.Index(np.array(sims, dtype="int64")), name="tracked"))
+            self.event_index = e.index
+
     SimulationContext._clear_context_cache()
     lk = L()
-    comps = ([Pop()] if pop_cols else []) + [lk]
+    unt = Untracker()
+    comps = ([Pop()] if pop_cols else []) + [lk, unt]
     y, m, d = case["start"]
     cfg = {"population": {"population_size": len(case["attrs"])},
            "interpolation": {"extrapolate": case["extrapolate"]},
@@ -119,12 +142,20 @@ def _run(case):
                 if c["after"] != k:
                     continue
                 now = sim._clock.time
-                rec = {"call": ci, "year": int(now.year), "yday": int(now.timetuple().tm_yday)}
+                if c["idx"] == "event":          # the index of the last time_step event (whole population before the first step)
+                    index = unt.event_index if unt.event_index is not None else sim.get_population(untracked=True).index
+                elif c["idx"] == "all":
+                    index = sim.get_population(untracked=True).index
+                else:
+                    index = pd.Index(np.array(c["idx"], dtype="int64"))
+                pop_now = sim.get_population(untracked=True)
+                rec = {"call": ci, "year": int(now.year), "yday": int(now.timetuple().tm_yday), "idx": [int(i) for i in index],
+                       "untracked": [int(i) for i in pop_now.index[~pop_now["tracked"].astype(bool)]]}
                 if lk.table is None:
                     rec["outcome"] = "no-table"
                 else:
                     try:
-                        res = lk.table(pd.Index(np.array(c["idx"], dtype="int64")))
+                        res = lk.table(index)
                         rec["outcome"] = "ok"
                         rec["type"] = type(res).__name__
                         df = res.to_frame() if isinstance(res, pd.Series) else res
@@ -250,6 +281,17 @@ class C15(Prop):
             else:
                 idx = rng.sample(range(n), rng.randint(1, n))
             calls.append({"after": rng.choice([0, 0, 1, 1, 2, 3]), "idx": idx})
+        if rng.random() < 0.4:
+            at = rng.choice([1, 1, 2])
+            case["untrack"] = [[at, sorted(rng.sample(range(n), rng.randint(1, n)))]]
+            for c in calls:
+                if rng.random() < 0.7:
+                    c["after"] = max(c["after"], at + rng.choice([0, 0, 1]))
+        else:
+            case["untrack"] = []
+        for c in calls:
+            if rng.random() < 0.25:
+                c["idx"] = rng.choice(["event", "all"])
         case["calls"] = calls
         return case
 
@@ -355,19 +397,31 @@ class C15(Prop):
         if len(case["calls"]) > 1:
             for i in range(len(case["calls"])):
                 yield dict(case, calls=case["calls"][:i] + case["calls"][i + 1:])
+        if case.get("untrack"):
+            yield dict(case, untrack=[])
         for i, c in enumerate(case["calls"]):
+            if isinstance(c["idx"], str):
+                yield dict(case, calls=case["calls"][:i] + [dict(c, idx=list(range(len(case["attrs"]))))] + case["calls"][i + 1:])
+                continue
             if len(c["idx"]) > 1:
                 for j in range(len(c["idx"])):
                     yield dict(case, calls=case["calls"][:i] + [dict(c, idx=c["idx"][:j] + c["idx"][j + 1:])] + case["calls"][i + 1:])
         if len(case["values"]) > 1 and case["kind"] != "scalar":
             yield dict(case, values=case["values"][:1], rows=[dict(r, vals=r["vals"][:1]) for r in case["rows"]])
         # drop a key group that no requested simulant uses
-        used = {tuple(case["attrs"][i]["keys"]) for c in case["calls"] for i in c["idx"]}
+        used = {tuple(case["attrs"][i]["keys"]) for c in case["calls"]
+                for i in (range(len(case["attrs"])) if isinstance(c["idx"], str) else c["idx"])}
         for kc in {tuple(r["keys"]) for r in case["rows"]} - used:
             yield dict(case, rows=[r for r in case["rows"] if tuple(r["keys"]) != kc])
 
     def run_impl(self, case):
         return _run(case)
+
+    @staticmethod
+    def _call(case, rec):
+        """the call of the case with its index resolved to the labels that were actually requested"""
+        c = case["calls"][rec["call"]]
+        return dict(c, idx=rec["idx"], spec=c["idx"] if isinstance(c["idx"], str) else "labels")
 
     # ------------------------------------------------------------------ model
     def _scale(self, case, j, q):
@@ -387,7 +441,7 @@ class C15(Prop):
             return [f"digitize {','.join(map(str, case['bins']))} {x}" for x in case["xs"]]
         if case["kind"] == "scalar":
             for rec in obs["calls"]:
-                c = case["calls"][rec["call"]]
+                c = self._call(case, rec)
                 L.append(f"scalar {','.join(map(str, case['scalar']))} {','.join(map(str, c['idx'])) or '-'}")
             return L
         ya = case["params"].index("year") if "year" in case["params"] else "-"
@@ -400,7 +454,7 @@ class C15(Prop):
         L.append("build")
         if obs["build"] == "ok":
             for rec in obs["calls"]:
-                c = case["calls"][rec["call"]]
+                c = self._call(case, rec)
                 L.append(" ".join([f"call {rec['year']} {rec['yday']}"] + [self._req(case, i) for i in c["idx"]]))
         return L
 
@@ -423,7 +477,7 @@ class C15(Prop):
                 dis.append(f"model wellFormed says {b}, the generator built the data {'well-formed' if case['wellformed'] else 'malformed'}")
             calls = replies[2 + len(case["rows"]):]
         for rec, rep in zip(obs["calls"], calls):
-            c = case["calls"][rec["call"]]
+            c = self._call(case, rec)
             if rep.startswith("err"):
                 if rec["outcome"] == "ok":
                     dis.append(f"call {c}: impl ok, model {rep}")
@@ -514,7 +568,7 @@ class C15(Prop):
             return [{"sig": "scalar-rejected", "msg": obs["build"]}]
         has_year = "year" in case["params"]
         for rec in obs["calls"]:
-            c = case["calls"][rec["call"]]
+            c = self._call(case, rec)
             where = f"call {c['idx']} after {c['after']} steps (clock {rec['year']} day {rec['yday']})"
             leap_dec31 = has_year and rec["yday"] == 366
             if case["kind"] == "scalar":
@@ -609,7 +663,7 @@ class C15(Prop):
                 if len({tuple(sorted({tuple(map(tuple, r["bins"])) for r in case["rows"] if tuple(r["keys"]) == k})) for k in groups}) > 1:
                     t.append("bins-differ-between-key-groups")
         for rec in obs["calls"]:
-            c = case["calls"][rec["call"]]
+            c = self._call(case, rec)
             t.append("call:" + ("ok" if rec["outcome"] == "ok" else "no-table" if rec["outcome"] == "no-table" else "rejected:" + rec["outcome"][4:]))
             idx = c["idx"]
             t.append("index:" + ("empty" if not idx else "repeated" if len(set(idx)) < len(idx) else
